@@ -786,7 +786,7 @@ theorem lookupBy_eq_getElem (ids : List Id) (xs : List β) (id : Id) (h : id ∈
     | nil => simp [lookupBy_nil_right]
     | cons x xs =>
       by_cases hi : i = id
-      · subst hi; simp [lookupBy_cons, List.idxOf_cons]
+      · subst hi; simp [lookupBy_cons]
       · have hm : id ∈ is := by
           rcases List.mem_cons.mp h with e | hm
           · exact absurd e.symm hi
@@ -810,7 +810,7 @@ theorem lookupBy_colAt (ids : List Id) (rows : List (List β)) (j : Nat) (id : I
     (h : ∀ r ∈ rows, j < r.length) :
     lookupBy ids (colAt rows j) id = (lookupBy ids rows id).bind (fun r => r[j]?) := by
   induction ids generalizing rows with
-  | nil => cases rows <;> simp [colAt, lookupBy]
+  | nil => cases rows <;> simp [lookupBy]
   | cons i is ih =>
     cases rows with
     | nil => simp [colAt, lookupBy_nil_right]
@@ -822,5 +822,174 @@ theorem lookupBy_colAt (ids : List Id) (rows : List (List β)) (j : Nat) (id : I
       split
       · simp [List.getElem?_eq_getElem hr]
       · exact ih'
+
+
+/-! ### `maskTable` seen through lookups by ID -/
+
+theorem other_other (ax : Axis) : ax.other.other = ax := by cases ax <;> rfl
+
+theorem maskTable_ids_same (t : Table α) (ax : Axis) (m : List Bool) :
+    (maskTable t ax m).ids ax = filterMask (t.ids ax) m := by cases ax <;> rfl
+
+theorem maskTable_ids_other (t : Table α) (ax : Axis) (m : List Bool) :
+    (maskTable t ax m).ids ax.other = t.ids ax.other := by cases ax <;> rfl
+
+theorem maskTable_ids_other' (t : Table α) (ax : Axis) (m : List Bool) :
+    (maskTable t ax.other m).ids ax = t.ids ax := by cases ax <;> rfl
+
+theorem maskTable_ttype (t : Table α) (ax : Axis) (m : List Bool) :
+    (maskTable t ax m).ttype = t.ttype := by cases ax <;> rfl
+
+theorem cellA_swap (t : Table α) (ax : Axis) (k o : Id) : cellA t ax k o = cellA t ax.other o k := by
+  cases ax <;> rfl
+
+theorem cellA_maskTable_same (t : Table α) (ax : Axis) (m : List Bool) (k o : Id)
+    (hnd : (t.ids ax).Nodup) (hk : k ∈ filterMask (t.ids ax) m) :
+    cellA (maskTable t ax m) ax k o = cellA t ax k o := by
+  cases ax with
+  | obs =>
+    simp only [cellA, Table.cell?, Table.row?, maskTable]
+    rw [lookupBy_filterMask t.obs t.rows m k hnd hk]
+  | samp =>
+    simp only [cellA, Table.cell?, Table.row?, maskTable, lookupBy_map]
+    cases lookupBy t.obs t.rows o with
+    | none => rfl
+    | some r =>
+      simp only [Option.map_some, Option.bind_some]
+      exact lookupBy_filterMask t.samp r m k hnd hk
+
+theorem cellA_maskTable_other (t : Table α) (ax : Axis) (m : List Bool) (k o : Id)
+    (hnd : (t.ids ax.other).Nodup) (ho : o ∈ filterMask (t.ids ax.other) m) :
+    cellA (maskTable t ax.other m) ax k o = cellA t ax k o := by
+  rw [cellA_swap, cellA_maskTable_same t ax.other m o k hnd ho, ← cellA_swap]
+
+theorem mdOf_maskTable_same (t : Table α) (ax : Axis) (m : List Bool) (k : Id)
+    (hnd : (t.ids ax).Nodup) (hk : k ∈ filterMask (t.ids ax) m) :
+    (maskTable t ax m).mdOf? ax k = t.mdOf? ax k := by
+  cases ax with
+  | obs =>
+    simp only [Table.mdOf?, Table.md, Table.ids, maskTable]
+    cases t.omd with
+    | none => rfl
+    | some l => simp only [Option.map_some, Option.bind_some]; exact lookupBy_filterMask t.obs l m k hnd hk
+  | samp =>
+    simp only [Table.mdOf?, Table.md, Table.ids, maskTable]
+    cases t.smd with
+    | none => rfl
+    | some l => simp only [Option.map_some, Option.bind_some]; exact lookupBy_filterMask t.samp l m k hnd hk
+
+theorem mdOf_maskTable_other (t : Table α) (ax : Axis) (m : List Bool) (o : Id) :
+    (maskTable t ax m).mdOf? ax.other o = t.mdOf? ax.other o := by cases ax <;> rfl
+
+theorem mdOf_maskTable_other' (t : Table α) (ax : Axis) (m : List Bool) (k : Id) :
+    (maskTable t ax.other m).mdOf? ax k = t.mdOf? ax k := by cases ax <;> rfl
+
+theorem maskTable_WF (t : Table α) (ax : Axis) (m : List Bool) (h : t.WF) : (maskTable t ax m).WF := by
+  obtain ⟨h1, h2, h3, h4⟩ := h
+  cases ax with
+  | obs =>
+    refine ⟨filterMask_length_eq m h1, fun r hr => h2 r (mem_filterMask hr), ?_, h4⟩
+    intro l hl
+    simp only [maskTable] at hl
+    cases ho : t.omd with
+    | none => rw [ho] at hl; cases hl
+    | some l0 =>
+      rw [ho] at hl
+      simp only [Option.map_some, Option.some.injEq] at hl
+      subst hl
+      exact filterMask_length_eq m (h3 l0 ho)
+  | samp =>
+    refine ⟨by simpa [maskTable] using h1, ?_, h3, ?_⟩
+    · intro r hr
+      simp only [maskTable, List.mem_map] at hr
+      obtain ⟨r0, hr0, rfl⟩ := hr
+      exact filterMask_length_eq m (h2 r0 hr0)
+    · intro l hl
+      simp only [maskTable] at hl
+      cases ho : t.smd with
+      | none => rw [ho] at hl; cases hl
+      | some l0 =>
+        rw [ho] at hl
+        simp only [Option.map_some, Option.some.injEq] at hl
+        subst hl
+        exact filterMask_length_eq m (h4 l0 ho)
+
+theorem wfb_of_WF (t : Table α) (h : t.WF) : t.wfb = true := by
+  obtain ⟨h1, h2, h3, h4⟩ := h
+  have a : (t.rows.all fun x => x.length == t.samp.length) = true := by
+    rw [List.all_eq_true]; intro r hr; simpa using h2 r hr
+  unfold Table.wfb
+  cases ho : t.omd with
+  | none =>
+    cases hs : t.smd with
+    | none => simp [a, h1]
+    | some m => simp [a, h1, h4 m hs]
+  | some l =>
+    cases hs : t.smd with
+    | none => simp [a, h1, h3 l ho]
+    | some m => simp [a, h1, h3 l ho, h4 m hs]
+
+theorem cell_isSome (t : Table α) (h : t.WF) (k s : Id) (hk : k ∈ t.obs) (hs : s ∈ t.samp) :
+    (t.cell? k s).isSome = true := by
+  obtain ⟨h1, h2, _, _⟩ := h
+  obtain ⟨r, hr, hrin⟩ := lookupBy_some_of_mem t.obs t.rows k hk (by omega)
+  obtain ⟨x, hx, _⟩ := lookupBy_some_of_mem t.samp r s hs (by rw [h2 r hrin]; exact Nat.le_refl _)
+  simp [Table.cell?, Table.row?, hr, hx]
+
+theorem cellA_isSome (t : Table α) (h : t.WF) (ax : Axis) (k o : Id) (hk : k ∈ t.ids ax)
+    (ho : o ∈ t.ids ax.other) : (cellA t ax k o).isSome = true := by
+  cases ax with
+  | obs => exact cell_isSome t h k o hk ho
+  | samp => exact cell_isSome t h o k ho hk
+
+theorem nzCell_eq [Zero α] [DecidableEq α] (t : Table α) (ax : Axis) (k o : Id) :
+    nzCell t ax k o = optAny (fun v => decide (v ≠ 0)) (cellA t ax k o) := by
+  unfold nzCell optAny
+  cases cellA t ax k o <;> rfl
+
+/-- which other-axis IDs survive the emptiness filter, told by ID and cell -/
+theorem dropEmpty_ids [Zero α] [DecidableEq α] (t : Table α) (h : t.WF) (hno : t.obs.Nodup)
+    (hns : t.samp.Nodup) (req : List Id) (ax : Axis) :
+    (dropEmpty (filterAxis t req ax) ax.other).ids ax.other =
+      (t.ids ax.other).filter (fun o =>
+        ((t.ids ax).filter (fun i => req.contains i)).any (fun k => nzCell t ax k o)) := by
+  obtain ⟨h1, h2, _, _⟩ := h
+  unfold dropEmpty
+  rw [maskTable_ids_same]
+  cases ax with
+  | samp =>
+    simp only [Axis.other, filterAxis, maskTable, vecs, Table.ids, idMask]
+    rw [filterMask_map_byId t.obs _ anyNZ hno (by simp [h1])]
+    apply List.filter_congr
+    intro o ho
+    obtain ⟨r, hr, hrin⟩ := lookupBy_some_of_mem t.obs t.rows o ho (by omega)
+    rw [lookupBy_map, hr]
+    simp only [Option.map_some, optAny, anyNZ]
+    rw [any_filterMask_byId t.samp r _ _ hns]
+    apply any_congr_mem
+    intro k _
+    rw [nzCell_eq]
+    simp only [cellA, Table.cell?, Table.row?, hr, Option.bind_some]
+  | obs =>
+    simp only [Axis.other, filterAxis, maskTable, vecs, Table.ids, idMask]
+    rw [transposeGrid_filterMask _ _ _ h2]
+    have hlen : t.samp.length = (List.map (fun c => filterMask c (List.map (fun i => req.contains i) t.obs))
+        (transposeGrid t.samp.length t.rows)).length := by simp [transposeGrid]
+    rw [filterMask_map_byId t.samp _ anyNZ hns hlen]
+    apply List.filter_congr
+    intro s hs
+    have hj : t.samp.idxOf s < t.samp.length := List.idxOf_lt_length_iff.mpr hs
+    have hcol : ∀ r ∈ t.rows, t.samp.idxOf s < r.length := fun r hr => by rw [h2 r hr]; exact hj
+    rw [lookupBy_map, lookupBy_eq_getElem t.samp _ s hs]
+    simp only [transposeGrid, List.getElem?_map, List.getElem?_range hj, Option.map_some, optAny, anyNZ]
+    rw [any_filterMask_byId t.obs _ _ _ hno]
+    apply any_congr_mem
+    intro k _
+    rw [nzCell_eq, lookupBy_colAt t.obs t.rows _ k hcol]
+    simp only [cellA, Table.cell?, Table.row?]
+    congr 1
+    cases lookupBy t.obs t.rows k with
+    | none => rfl
+    | some r => simp only [Option.bind_some]; exact (lookupBy_eq_getElem t.samp r s hs).symm
 
 end Biom.C14
